@@ -18,7 +18,7 @@ CHECKS = {
          "hangs/aborts are caught by a watchdog and confirmed in a fresh process), status true, one slot per line, and a well-formed line after malformed ones "
          "evaluates as it does alone. A quarter of the runs register caller-supplied rules (patterns of two or more tokens) that accept or decline and feed lines that reach them; sessions are also evaluated again without a new text, given the identical text twice and switched to another language while alive. In a fifth of the runs another text is evaluated inside a rule-callback invocation of an evaluation in progress (both must return, status true, one slot per line); names hold clock times across days and years; a binding that fails in the interpreter is followed by a use of the name; unit families (also rejected duplicates of built-in ones) and set_date_rule are part of the configuration history. A run that does not return is confirmed alone in a fresh process. Exploration level: the space of texts is unbounded; what the simulator adds is the environment dimension (when and where the library runs).",
     design="6 (C01), 4, 5",
-    technique="deterministic simulation: seeded clock/host-zone/config-history fault injection with a totality oracle and watchdog"),
+    technique="deterministic simulation: seeded clock/host-zone/config-history fault injection, steps scheduled inside rule-callback invocations, with a totality oracle and watchdog"),
  "C04": dict(
     text="Seeded deterministic simulation of 1..4 clients (one-shot and session style) and an administrator sharing one long-lived calculator: a seeded scheduler "
          "interleaves their calls, the clock advances between calls, sessions are re-used with texts of differing line counts, dropped and recreated, rule callbacks decline or unwind, "
@@ -47,10 +47,10 @@ CHECKS = {
     design="6 (C14), 5", technique="deterministic simulation: scripted clock and default-zone change histories with an epoch model; steps scheduled inside rule-callback invocations, declining and unwinding callbacks as injected behaviour"),
  "C15": dict(
     text="Seeded deterministic simulation of a two-evaluation history per value: evaluate a value line of every printable kind (number, percent, money, duration, time with zone, date, unit quantity, based integer; en and tr), then evaluate its printed form at the same frozen, boundary-biased instant, host zone and configuration (separator/digit/flag/default-zone history through the public setters); the second print must equal the first. Clock-dependent kinds (date: year elision and default year; time: anchoring, host zone) are what the simulator contributes; clock-free kinds ride along and are counted separately. Exploration level. A third of the runs send every value through ONE long-lived session whose language is switched between values; a third register user-defined units while the calculator is already in use and round-trip quantities of those units. Always-declining broad rules and rate updates are part of the configuration history. Values are also printed by evaluations during which the other language was evaluated inside a rule callback (an echo rule hands the value back); dates reached only by arithmetic (early years), years below 1000, small negative values.",
-    design="6 (C15), 5", technique="deterministic simulation: print/read fixed point under simulated clock, host zone and configuration history"),
+    design="6 (C15), 5", technique="deterministic simulation: print/read fixed point under simulated clock, host zone, configuration history and evaluations nested in rule callbacks"),
  "C18": dict(
     text="Seeded deterministic simulation of registration histories (add_rule / delete_rule / add_dynamic_type / add_dynamic_type_item; valid, duplicate, unknown language/name/family) interleaved with evaluations; rule callbacks are simulator-owned and accept or decline as a pure function of (salt, rule, fields). Oracles: registration model for return values; callback log (first live rule in registration order is called first with fields bound by name, next one after a decline, result token of the accepting rule, transparency when all decline - against a replica without custom rules); O-survivors: at checkpoints a FRESH calculator receives only the surviving registrations in original order and must evaluate a probe set identically; rejected calls change nothing (probe set bit-identical); family chain model (product of declared factors). Exploration level. Extended workload: chain steps that are not proportional (offsets), lines with several spots joined by operators (judged when exactly one live rule accepts each spot; the generator aims lines at decline/accept constellations using the run's decision salt), keywords in another case and with non-ASCII letters; an evaluation that never returns is a violation (watchdog, confirmed alone in a fresh process). Typed fields (DURATION, DATE, family-restricted DYNAMIC_TYPE in another letter case), operands through a variable, and a pattern that contains the clock word 'today' (read at registration: the rule matches lines of that simulated day only); at checkpoints the fresh calculator is given the surviving registrations at their original simulated instants. set_date_rule and deletions by names of the library's own rule functions are part of the registration history (refused / without effect on any custom rule); probes are also evaluated inside callback invocations of other probes.",
-    design="6 (C18), 5", technique="deterministic simulation: seeded registration/deletion histories with callback decline injection, survivors replica and registration model"),
+    design="6 (C18), 5", technique="deterministic simulation: seeded registration/deletion histories under a simulated clock with callback decline injection and probes nested in callbacks; survivors replica (registrations replayed at their instants) and registration model"),
 }
 
 NOT_APPLICABLE = {
